@@ -18,6 +18,8 @@ func (c *Ctx) genEnv(i int) rt.Env {
 	e := rt.Env{S0: pick(), S1: pick(), B0: c.R.Intn(2) == 0, B1: c.R.Intn(2) == 0, N0: c.R.Intn(4)}
 	if i == 0 {
 		e = rt.Env{S0: "PH0", S1: "PH1", B0: true, B1: false, N0: 2}
+	} else if i%4 == 3 {
+		e.N0 = []int{-255, -3}[c.R.Intn(2)] // (multiples of three: the generator's d3[n0%3 + 1] stays in range)
 	}
 	for k := c.R.Intn(4); k > 0; k-- {
 		e.Xs = append(e.Xs, pick())
